@@ -40,7 +40,10 @@ type SolverStats struct {
 	Errors    []string
 }
 
+var debugDefs = os.Getenv("GOSYM_DEBUG_DEFS") != ""
+
 type Solver struct {
+	where     string
 	tt        *TermTable
 	bin       string
 	args      []string
@@ -63,7 +66,7 @@ type Solver struct {
 }
 
 func NewSolver(tt *TermTable, bin string, timeoutMs int) *Solver {
-	s := &Solver{tt: tt, bin: bin, timeoutMs: timeoutMs, cache: map[string]Result{}, defsLimit: 60000}
+	s := &Solver{tt: tt, bin: bin, timeoutMs: timeoutMs, cache: map[string]Result{}, defsLimit: envInt("GOSYM_DEFS_LIMIT", 400000)}
 	s.start()
 	return s
 }
@@ -130,6 +133,21 @@ func (s *Solver) freshContext() {
 	s.start()
 	s.defsAtStart = s.Stats.Defs
 	s.defsBase = s.Stats.Defs
+}
+
+// softReset clears the solver context in-process.
+func (s *Solver) softReset() {
+	s.defsBase = s.Stats.Defs
+	s.send("(reset)\n")
+	if strings.Contains(s.bin, "cvc5") {
+		s.send("(set-logic QF_BV)\n")
+	}
+	s.send("(set-option :produce-models true)\n")
+	s.emitted = map[int]bool{}
+	s.guards = map[int]bool{}
+	s.vars = nil
+	s.varSet = map[int]bool{}
+	s.Stats.Restarts++
 }
 
 func (s *Solver) restart() {
@@ -254,9 +272,10 @@ func (s *Solver) Check(lits []Lit, wantModel bool) (Result, Model) {
 		return r, nil
 	}
 	if s.Stats.Defs-s.defsBase > s.defsLimit {
-		s.restart()
+		s.softReset()
 	}
 	start := time.Now()
+	defs0 := s.Stats.Defs
 	var sb strings.Builder
 	sb.WriteString("(check-sat-assuming (")
 	seen := map[Lit]bool{}
@@ -283,6 +302,9 @@ func (s *Solver) Check(lits []Lit, wantModel bool) (Result, Model) {
 	s.send(sb.String())
 	s.in.Flush()
 	s.Stats.Queries++
+	if debugDefs && s.Stats.Defs-defs0 > 500 {
+		fmt.Fprintf(os.Stderr, "query %d: %d new defs, %d lits (%s)\n", s.Stats.Queries, s.Stats.Defs-defs0, len(lits), s.where)
+	}
 	res := Unknown
 	deadline := time.Duration(s.timeoutMs)*time.Millisecond + 10*time.Second
 	for {
@@ -426,4 +448,13 @@ func (s *Solver) getModel() Model {
 		i = k + 1 + e
 	}
 	return m
+}
+
+func envInt(name string, def int) int {
+	if v := os.Getenv(name); v != "" {
+		if n, err := strconv.Atoi(v); err == nil {
+			return n
+		}
+	}
+	return def
 }
